@@ -223,6 +223,21 @@ func (r *runner) runLint(c *Case, res *result) {
 			return
 		}
 		res.NDiag = len(errs)
+		if c.Channel == chWorkflow && c.Idx%4 == 0 {
+			// the same workflow as two files OUTSIDE any repository, linted in one LintFiles call:
+			// no project, so the null caches are in use (multi-file code path of linter.go)
+			dir := filepath.Join(filepath.Dir(r.scratch), "noproject")
+			hx.Must(os.MkdirAll(dir, 0o755))
+			f1, f2 := filepath.Join(dir, "a.yml"), filepath.Join(dir, "b.yml")
+			hx.Must(os.WriteFile(f1, wf, 0o644))
+			hx.Must(os.WriteFile(f2, wf, 0o644))
+			l2, err := actionlint.NewLinter(&out, opts)
+			if err == nil {
+				if _, err := l2.LintFiles([]string{f1, f2}, nil); err != nil && !isIOErr(err) {
+					res.Fatal = err.Error()
+				}
+			}
+		}
 		if c.Channel == chCallee {
 			// the called file is itself a workflow: lint it as one, too
 			if _, err := l.Lint(filepath.Join(r.scratch, ".github", "workflows", "callee.yml"), c.Data, proj); err != nil && !isIOErr(err) {
